@@ -566,9 +566,36 @@ fn main() {
     let mut tr = Trace::create(&args[2]);
     let mut cache = HashMap::new();
     let mut stats = vec![];
+    // Watchdog: an episode that does not finish within its time limit (the recorded finding C20/force-bytes-unbounded-loop
+    // is an endless loop that allocates) ends the process with exit code 3 after reporting which episode it was; the
+    // episodes before it are complete in the trace (it is flushed after every episode), the caller restarts after it.
+    let limit = job["episode_limit_s"].as_u64().unwrap_or(90);
+    let cur = std::sync::Arc::new(std::sync::Mutex::new((0usize, std::time::Instant::now(), Vec::<Value>::new())));
+    {
+        let cur = cur.clone();
+        std::thread::spawn(move || loop {
+            std::thread::sleep(std::time::Duration::from_millis(500));
+            let g = cur.lock().unwrap();
+            if g.1.elapsed().as_secs() >= limit {
+                println!("{}", json!({"hung": g.0, "episodes": g.2, "events": 0}));
+                std::process::exit(3);
+            }
+        });
+    }
     for (i, ep) in job["episodes"].as_array().expect("episodes").iter().enumerate() {
+        {
+            let mut g = cur.lock().unwrap();
+            g.0 = i;
+            g.1 = std::time::Instant::now();
+        }
         let st = run_episode(ep, i, &mut cache, &mut tr);
+        tr.flush();
+        cur.lock().unwrap().2.push(st.clone());
         stats.push(st);
+    }
+    {
+        // (no false alarm from the watchdog while the summary is printed)
+        cur.lock().unwrap().1 = std::time::Instant::now();
     }
     tr.flush();
     println!("{}", json!({"episodes": stats, "events": tr.n}));
